@@ -24,7 +24,11 @@ CHECKS = {
              "function; copied defaults are proved unchanged. Differential part: every argument of every call of the P&R "
              "chain (7 placer configurations), ordered covering, BitField, controller construction is snapshotted "
              "before/after, and every call made after a random history must equal the same call made first in a fresh "
-             "interpreter.",
+             "interpreter. Histories are random, FAMILIES (a base call and copies differing in one component each: machine "
+             "size, dead links, dead chips, sources, targets, switches ... -- what exposes a memo whose key omits that "
+             "component), object reuse with in-place edits, both top-level wrappers with passed or defaulted constraint "
+             "lists / keyword dictionaries, direct table-minimiser calls, dense annealing probes, user callbacks, caller-owned "
+             "vertex_order lists and partial allocation maps.",
         ref="4 C17", technique="Coq proof over a source-regenerated shared-state inventory + memo transparency theorem; differential history/fresh-interpreter runs with deep argument snapshots",
         note=TB + " CPython-level aliasing outside the inventoried carriers is covered only by the differential run; the "
              "write-site/escape counts are a syntactic (ast) approximation."),
@@ -233,13 +237,14 @@ CHECKS = {
         ref="4 C12", technique="Coq proof (tree invariant by induction on levels; finite bit layer by vm_compute) + py2v translation + vm_compute correspondence",
         note=TB),
     "C15": dict(
-        text="Full. Format strings, masks, shifts, offsets and argument-count guards are read from the source text by ast on every "
-             "run and drive a generic struct pack/unpack interpreter in the model. Theorems for every in-width field value, any "
-             "payload and 0-3 present arguments: byte-by-byte SDP and SCP layout, decode(encode p) = p in every field under the "
-             "argument-prefix guard (proved necessary), field isolation, the number of arguments taken when decoding is "
-             "max 0 (min n_args ((len-14)/4) 3) incl. payloads ending inside argument words, short strings raise, out-of-width "
-             "fields raise exactly when struct.pack would (ports/cores are masked). Exact byte correspondence both ways incl. "
-             "full sweeps of every 8/16-bit field; struct-free oracle.",
+        text="Full. Format strings, masks, shifts, offsets, argument-count guards and the int() coercion of the port/core "
+             "operands are read from the source text by ast on every run (module/class inventory fails closed on any new state) "
+             "and drive a generic struct pack/unpack interpreter. Theorems, all field values in width, any payload, 0-3 args: "
+             "byte-by-byte SDP/SCP layout; decode(encode p) = p (argument-prefix guard proved necessary); a datagram decoded "
+             "with any n_args re-encodes to itself; field isolation; arguments taken = max 0 (min n_args ((len-14)/4) 3); error "
+             "branches. Object model: fields are None / ints / numpy scalars / truthy flags, encoding depends on integer and "
+             "truth values only; histories on one object (failed encode then repair, in-place payload edits) and decoded objects "
+             "surviving reuse of the caller's buffer are theorems and run in the model. Thread search is search only.",
         ref="4 C15", technique="Coq proof (little-endian pack/unpack lemmas, bit decomposition) + ast-extracted formats (T) + vm_compute correspondence",
         note=TB + " struct.pack semantics are modelled by the format interpreter."),
     "C14": dict(
